@@ -191,6 +191,14 @@ func newWorld(t *tb, r *prng.R, C, V, nUsers, nExtraCands int) *world {
 		nk := detKey(r)
 		w.notaryAll = append(w.notaryAll, nk)
 	}
+	// the helper contracts (deployed in setup; their hashes are known beforehand)
+	for i := 0; i < 2; i++ {
+		h := walletContract(w.valSigner.ScriptHash(), fmt.Sprintf("W%d", i)).Hash
+		w.wallets = append(w.wallets, h)
+		w.aid(h)
+	}
+	w.nopay = nopayContract(w.valSigner.ScriptHash(), "NoPay").Hash
+	w.aid(w.nopay)
 	slices.SortFunc(w.notaryAll, func(a, b *keys.PrivateKey) int { return a.PublicKey().Cmp(b.PublicKey()) })
 	w.notaryKey = w.notaryAll[r.Intn(len(w.notaryAll))]
 	for _, nk := range w.notaryAll {
@@ -237,9 +245,16 @@ func (w *world) initLine(attrFee int64, gasInit int64) string {
 		}
 	}
 	rec(0, nil)
-	return fmt.Sprintf("init %d %d %d %d %d %d %d %d %d %d %s %s %s", w.aid(w.notaryH), w.aid(w.neoH), w.aid(w.gasH), w.aid(w.policyH),
+	// the contracts that can be paid and what their payment callback does: w = Wallet helper, x = no
+	// onNEP17Payment, a = accepts every payment of a transfer (Treasury)
+	var cts []string
+	for _, h := range w.wallets {
+		cts = append(cts, fmt.Sprintf("%d:w", w.aid(h)))
+	}
+	cts = append(cts, fmt.Sprintf("%d:x", w.aid(w.nopay)), fmt.Sprintf("%d:x", w.aid(w.gasH)), fmt.Sprintf("%d:a", w.aid(w.treasuryH)))
+	return fmt.Sprintf("init %d %d %d %d %d %d %d %d %d %d %s %s %s %s", w.aid(w.notaryH), w.aid(w.neoH), w.aid(w.gasH), w.aid(w.policyH),
 		w.C, w.V, attrFee, w.aid(w.treasuryH), w.aid(w.valSigner.ScriptHash()), gasInit,
-		strings.Join(sb, ","), strings.Join(ka, ","), strings.Join(ms, ","))
+		strings.Join(sb, ","), strings.Join(ka, ","), strings.Join(ms, ","), strings.Join(cts, ","))
 }
 
 // committeeSigner builds the majority multisig signer of the CURRENT committee (all
